@@ -69,7 +69,7 @@ func drawMax(rt *rapid.T, label string, mem int) int {
 // kinds of violation each property reports
 var kindsOf = map[string]map[string]bool{
 	"C06": {"request-altered": true, "body-altered": true, "length-undeclared": true, "chunked-forwarded": true, "handler-after-read-fault": true, "no-error-after-read-fault": true},
-	"C07": {"invocation-count": true, "status": true, "headers": true, "body": true, "discarded-attempt-leaked": true, "client-writer-misuse": true, "empty-body-not-empty": true, "error-handler-twice": true},
+	"C07": {"invocation-count": true, "status": true, "headers": true, "body": true, "discarded-attempt-leaked": true, "client-writer-misuse": true, "empty-body-not-empty": true, "error-handler-twice": true, "hijacked-connection": true},
 	"C15": {"request-over-limit-passed": true, "request-limit-status": true, "response-over-limit-leaked": true, "response-limit-status": true, "temp-file-left": true, "spurious-limit": true, "error-handler-bypassed": true},
 }
 
@@ -129,7 +129,7 @@ func bufprop(r *simkit.Run, prop string) {
 	}
 	h := simkit.NewHash()
 	nEx := rapid.IntRange(1, 4).Draw(rt, "exchanges")
-	spills, retries, overReq, overResp, readFaults, diskFaults, bodiless, aborts, clientGone := 0, 0, 0, 0, 0, 0, 0, 0, 0
+	spills, retries, overReq, overResp, readFaults, diskFaults, bodiless, aborts, clientGone, lateHijacks := 0, 0, 0, 0, 0, 0, 0, 0, 0, 0
 	var samples []string
 
 	for x := 0; x < nEx; x++ {
@@ -200,11 +200,20 @@ func bufprop(r *simkit.Run, prop string) {
 			sc.writeHow = rapid.SampledFrom([]int{0, 0, 1, 2, 3, 4, 5}).Draw(rt, "write-how")
 			if ex.writerKind != "" {
 				sc.tryHijack = rapid.Bool().Draw(rt, "try-hijack")
+			} else {
+				// the client's writer allows a take-over: now and then the handler writes through the buffer first (a
+				// response it then abandons, spilled or not) and takes the connection over afterwards
+				sc.lateHijack = rapid.IntRange(0, 11).Draw(rt, "hijack-after-writing") == 0
 			}
 			sc.mutate = rapid.Bool().Draw(rt, "mutate")
 			sc.early = rapid.IntRange(0, 5).Draw(rt, "early-hints") == 0
 			sc.abort = rapid.IntRange(0, 9).Draw(rt, "handler-aborts") == 0
-			sc.status = rapid.SampledFrom([]int{0, 0, 200, 200, 201, 204, 301, 304, 404, 500, 502, 503, 504}).Draw(rt, "status")
+			sc.status = rapid.SampledFrom([]int{0, 0, 200, 200, 201, 204, 301, 304, 404, 500, 502, 503, 504, -1}).Draw(rt, "status")
+			if sc.status == -1 {
+				// any final status net/http lets a handler choose: only 204, 304 (and HEAD) mean "no body"; 205, 206, 226, 3xx
+				// and every error class carry whatever the handler wrote (413 is left to the buffer: the oracle tells its refusals by it)
+				sc.status = rapid.SampledFrom([]int{202, 203, 205, 206, 207, 226, 300, 302, 303, 305, 307, 308, 400, 401, 405, 408, 409, 410, 411, 412, 416, 417, 418, 421, 425, 426, 428, 429, 431, 451, 499, 501, 505, 507, 511, 599}).Draw(rt, "rare-status")
+			}
 			if rapid.Bool().Draw(rt, "resp-hdr") {
 				sc.headers.Add("X-Multi-Resp", "a")
 				sc.headers.Add("X-Multi-Resp", "b")
@@ -401,6 +410,23 @@ func bufprop(r *simkit.Run, prop string) {
 			}
 			continue
 		}
+		if ex.lateHijacked {
+			// the handler took the connection over after writing through the buffer: the connection is the handler's, the
+			// buffer has nothing more to say on it, no further attempt is made, and what was captured is let go of (the
+			// temp-file listing above)
+			lateHijacks++
+			r.Fault("handler-hijacks-after-writing")
+			if got := ex.rec.HijackBuf.String(); got != "spoken-on-the-hijacked-connection" {
+				note("hijacked-connection", "%s: the handler wrote its message on the connection it took over, the connection got %q", where, truncate([]byte(got)))
+			}
+			if ex.rec.Status != 0 || ex.rec.Body.Len() > 0 {
+				note("hijacked-connection", "%s: after the handler took the connection over the buffer still answered through the ResponseWriter (status %d, %d bytes)", where, ex.rec.Status, ex.rec.Body.Len())
+			}
+			if sc := ex.scripts[(len(ex.seen)-1)%len(ex.scripts)]; !sc.lateHijack {
+				note("invocation-count", "%s: the handler was invoked again (%d times) after it had taken the connection over", where, len(ex.seen))
+			}
+			continue
+		}
 		// ---- retries (C07) ----
 		codes := func(attempt int) (int, bool) {
 			sc := ex.scripts[(attempt-1)%len(ex.scripts)]
@@ -530,6 +556,7 @@ func bufprop(r *simkit.Run, prop string) {
 	r.ProbeN("disk-fault-hit", diskFaults)
 	r.ProbeN("handler-aborted", aborts)
 	r.ProbeN("client-gone-mid-delivery", clientGone)
+	r.ProbeN("handler-hijacked-after-writing", lateHijacks)
 	r.Sample(func() any { return map[string]any{"config": cfg.String(), "exchanges": samples} })
 }
 
